@@ -150,4 +150,6 @@ func checkC17(c *Ctx, r *rep.Report) {
 	ruleBatchAll(c, r, p, rl, fl)
 	ruleBatchNeutral(r, p, rl)
 	ruleCofactor(r, p)
+	ruleHeapSeed(r, p, rl.Msm)
+	ruleUnrolledChains(r, p)
 }
